@@ -36,6 +36,7 @@ def one(mon: Monitor, rng: random.Random) -> None:
 
     cross = rng.random() < 0.3
     glob = rng.random() < 0.07
+    aligned_chunks = None
     if glob:
         # regional destination cut out of a global mosaic (the source is far larger than the destination's projection can represent)
         from odc.geo.geobox import GeoBox
@@ -52,6 +53,16 @@ def one(mon: Monitor, rng: random.Random) -> None:
             return mon.skip("generator", "no common window")
         src, dst, place = pr
         kind, exact_grid = "cross|" + place, False
+    elif rng.random() < 0.12:
+        # same grid, destination a chunk-aligned window of the source (crop, or shifted off by whole chunks) with the source's own chunking:
+        # every destination chunk then coincides with a source block - the case where "nothing to warp" shortcuts would apply
+        from odc.geo.geobox import GeoBox
+
+        src = pairs.src_box(rng, binary_exact=True, max_n=36)
+        cy_, cx_ = rng.choice([3, 5, 8]), rng.choice([4, 6, 9])
+        oy_, ox_ = rng.randint(-1, 2) * cy_, rng.randint(-1, 2) * cx_
+        dst = GeoBox((cy_ * rng.randint(1, 3), cx_ * rng.randint(1, 3)), src.affine * Affine.translation(ox_, oy_), src.crs)
+        kind, exact_grid, aligned_chunks = "same|chunk-aligned", True, (cy_, cx_)
     else:
         exact_grid = rng.random() < 0.6
         src, dst, k0, label = pairs.same_crs_pair(rng, binary_exact=exact_grid, max_n=36)
@@ -65,12 +76,16 @@ def one(mon: Monitor, rng: random.Random) -> None:
     nodata = rng.choice([None, None, 255 if dtype == "uint8" else 9999 if dtype == "uint16" else -9])
     # explicit destination fill (0 is a legitimate explicit value, different from "not given")
     dst_nodata = rng.choice([None, None, None, 0, 0, 7])
+    if aligned_chunks:
+        if nodata is None:
+            nodata = 255 if dtype == "uint8" else 9999 if dtype == "uint16" else -9
+        dst_nodata = rng.choice([None, 0, 7, 7])
     tax = rng.random() < 0.35
     shape = ((2,) + (H, W)) if tax else (H, W)
     base = (np.arange(H * W).reshape(H, W) % 97 + 1)
     data = (np.stack([base, base[::-1, ::-1] % 89 + 1]) if tax else base).astype(dtype)
     nd_kind = "none"
-    if nodata is not None and rng.random() < 0.55:
+    if nodata is not None and (rng.random() < 0.55 or aligned_chunks):
         # real scenes have empty corners and fully masked time slices: whole source windows of nothing but nodata
         nd_kind = rng.choice(["patches", "patches", "half", "plane"] if tax else ["patches", "patches", "half"])
         if nd_kind == "plane":
@@ -88,8 +103,11 @@ def one(mon: Monitor, rng: random.Random) -> None:
         sch = (max(sch[0], 3), max(sch[1], 4))
     if glob:
         sch = (rng.choice([60, 90, 128]), rng.choice([90, 120, 256]))
+
     if ny * nx > 600:
         dch = (max(dch[0], 5), max(dch[1], 6))
+    if aligned_chunks:
+        sch = dch = aligned_chunks
     resampling = rng.choice(["nearest", "nearest", "bilinear"])
     sched_ = rng.choice(["sync", "sync", "threads"])
     oseed = rng.randint(0, 10**6)
@@ -166,7 +184,7 @@ def one(mon: Monitor, rng: random.Random) -> None:
     if dst_nodata is not None:
         mon.obs[f"explicit_dst_nodata={dst_nodata}|src_nodata={'given' if nodata is not None else 'none'}|{'float' if np.dtype(dtype).kind == 'f' else 'int'}"] += 1
     if not cross and resampling == "nearest":
-        if exact_grid and kind.split("|")[1] in ("shift", "contained", "partial", "touch", "far", "mirror", "scale"):
+        if exact_grid and kind.split("|")[1] in ("shift", "contained", "partial", "touch", "far", "mirror", "scale", "chunk-aligned"):
             cmp_mask = np.ones((ny, nx), dtype=bool)
         else:
             fx, fy = np.abs(px - np.round(px)), np.abs(py - np.round(py))
@@ -240,7 +258,7 @@ def run(mon: Monitor, tier: str, seed: int, shard: int, nshards: int) -> None:
     mon.obs["distinct_orders_sync"] = len({o for s, o in _orders if s == "sync"})
     mon.obs["distinct_orders_threads"] = len({o for s, o in _orders if s == "threads"})
     for pt, n in [("fill-rule", 150), ("chunked==whole", 60), ("fill-rule|same|far|all-outside", 5), ("fill-rule|cross|far|all-outside", 2), ("fill-rule|same|partial", 10), ("chunked==whole|same|subpix", 3),
-                  ("chunked==whole|same|mirror", 3), ("chunked==whole|same|scale", 3), ("fill-rule|cross|shift", 5), ("inside-rule", 40), ("joint-graph", 25), ("inside-rule|cross|global-source", 3)]:
+                  ("chunked==whole|same|mirror", 3), ("chunked==whole|same|scale", 3), ("fill-rule|cross|shift", 5), ("inside-rule", 40), ("joint-graph", 25), ("chunked==whole|same|chunk-aligned", 5), ("inside-rule|cross|global-source", 3)]:
         mon.floor(pt, n)
 
 
